@@ -424,6 +424,13 @@ def evaluate(case, env):
                     break
                 if held is None:
                     continue  # clause (2) reports the missing name
+                if found is not held and ref.kind == "class" and target is not ref and (name in _self_attrs(ref.node) or ref.node.bases):
+                    # input feature of a recorded finding: a name read in a class body that the body does not bind, while the
+                    # class has an instance attribute of that name or has base classes (whose attributes rope also lists)
+                    out.labels["class_body_use_vs_attribute_table"] += 1
+                    if env.known("class_scope_names_are_the_attribute_table"):
+                        out.excluded["class_scope_names_are_the_attribute_table"] += 1
+                        continue
                 if found is not held:
                     vio(
                         "lookup:%s->%s" % (ref.kind, target.kind),
